@@ -7,6 +7,8 @@ from .. import paths, waiters
 from ..core import FUNC, call_attr, calls_in, const, dotted, is_const, kwarg, norm, text, walk_local
 
 EXPLANATION = [
+    'C13.negotiated-sc: smp.Session reads the configured pairing_config.sc only in __init__; protocol steps decide on the negotiated self.sc.',
+    'C13.store-key-verbatim: JsonKeyStore.update / get / delete address key_map by the unmodified `name` argument (insert and lookup use the same key).',
     "C13.expected-from-argument: every KeyDistribution test in Session.compute_peer_expected_distributions is made on the function's mask parameter.",
     "C13.link-key-needs-sc: every `self.link_key = derive_link_key(self.ltk, ...)` of smp.Session is guarded by self.sc (with legacy pairing each side's ltk is its own).",
     'C13.passkey-verbatim: Session.input_passkey stores the number the user entered unchanged (the parameter of its continuation is not reassigned before `self.passkey = passkey`).',
@@ -973,7 +975,49 @@ def expected_from_argument(ctx):
     R.check(len(tests) >= 3 and not bad, rule, f'{S}.compute_peer_expected_distributions', f'{len(tests)} tests, all on `{param}`', f'`{norm(bad[0]) if bad else ""}` reads another mask than the one passed in: the responder derives what it waits for from its own direction of the negotiated masks - with asymmetric masks it waits for keys that never come (or does not wait for keys that do)', p.loc(bad[0]) if bad else p.loc(fn))
 
 
+def store_key_verbatim(ctx, rule='C13.store-key-verbatim'):
+    """The key store is addressed by the peer address string its callers pass: JsonKeyStore.update / get / delete use `name`
+    as it comes (insert and lookup agree on the key - a name normalised on one side only is never found again)."""
+    R, p = ctx.r, ctx.p
+    ci = p.cls('bumble.keys.JsonKeyStore')
+    if ci is None:
+        R.bad(rule, 'bumble.keys.JsonKeyStore', 'anchor missing')
+        return
+    n = 0
+    for name in ('update', 'get', 'delete'):
+        fn = ci.methods.get(name)
+        if fn is None:
+            R.bad(rule, f'bumble.keys.JsonKeyStore.{name}', 'anchor missing')
+            continue
+        keys = [c.args[0] for c in calls_in(fn) if call_attr(c) in ('setdefault', 'get', 'pop') and dotted(c.func.value) == 'key_map' and c.args]
+        keys += [s_.slice for s_ in ast.walk(fn) if isinstance(s_, ast.Subscript) and dotted(s_.value) == 'key_map']
+        keys += [c.left for c in ast.walk(fn) if isinstance(c, ast.Compare) and isinstance(c.ops[0], (ast.In, ast.NotIn)) and dotted(c.comparators[0]) == 'key_map']
+        n += len(keys)
+        bad = [k for k in keys if not (isinstance(k, ast.Name) and k.id == 'name')]
+        R.check(bool(keys) and not bad, rule, f'bumble.keys.JsonKeyStore.{name}', 'key_map addressed by `name`', f'{name} addresses the entry by `{norm(bad[0]) if bad else ""}`, the other operations by `name`: what one stores the others do not find - after a reconnection the bonded keys are "not found" and the link cannot be encrypted', p.loc(bad[0]) if bad else p.loc(fn))
+    R.check(n >= 4, rule, 'bumble.keys.JsonKeyStore | entry accesses', f'{n}', f'only {n} found')
+
+
+def negotiated_sc(ctx):
+    """Whether a pairing is legacy or Secure Connections is the negotiated `self.sc` (the configured flag AND the peer\'s
+    AuthReq): the configured `pairing_config.sc` is read where the session is set up and nowhere in the protocol steps."""
+    R, p = ctx.r, ctx.p
+    rule = 'C13.negotiated-sc'
+    ci = p.cls(S)
+    if ci is None:
+        R.bad(rule, S, 'anchor missing')
+        return
+    n = 0
+    for name, fn in sorted(ci.methods.items()):
+        for a in [x for x in walk_local(fn) if isinstance(x, ast.Attribute) and x.attr == 'sc' and norm(x.value).endswith('pairing_config')]:
+            n += 1
+            R.check(name == '__init__', rule, f'{S}.{name} | {norm(a)}', 'read at set-up only', f'{name} decides on the configured `{norm(a)}` instead of the negotiated self.sc: with a peer that does not do Secure Connections the two differ - the legacy TK is not derived from the displayed passkey, the right passkey fails and passkey 0 pairs', p.loc(a))
+    R.check(n >= 1, rule, f'{S} | reads of pairing_config.sc', f'{n} (all in __init__)', 'none found (anchor)')
+
+
 RULES = [
+    ('C13.negotiated-sc', negotiated_sc),
+    ('C13.store-key-verbatim', store_key_verbatim),
     ('C13.expected-from-argument', expected_from_argument),
     ('C13.link-key-needs-sc', link_key_needs_sc),
     ('C13.passkey-verbatim', passkey_verbatim),
